@@ -38,15 +38,17 @@ if os.path.exists(sp):
 rows2 = ["| prop | changed file(s) | what the change does / trigger | caught by | history |", "|------|-----------------|-------------------------------|-----------|---------|"]
 for p in props:
     pid = p["id"]
-    sm = os.path.join(here, "seeded", pid, "meta.json")
-    if not os.path.exists(sm):
-        continue
-    m = json.load(open(sm))
-    files = ", ".join(os.path.basename(f) for f in m.get("files", []))
-    trig = (m.get("trigger") or m.get("summary") or "").replace("|", "/").replace("\n", " ")
-    if len(trig) > 230:
-        trig = trig[:227] + "…"
-    rows2.append(f"| {pid} | {files} | {trig} | {', '.join(m.get('caught_by', [])) or '—'} | {st.get(pid, '')} |")
+    for sub in ["", "round2", "round3"]:
+        sm = os.path.join(here, "seeded", pid, sub, "meta.json")
+        if not os.path.exists(sm):
+            continue
+        m = json.load(open(sm))
+        files = ", ".join(os.path.basename(f) for f in m.get("files", []))
+        trig = (m.get("trigger") or m.get("summary") or "").replace("|", "/").replace("\n", " ")
+        if len(trig) > 230:
+            trig = trig[:227] + "…"
+        label = pid + ("/" + sub if sub else "")
+        rows2.append(f"| {label} | {files} | {trig} | {', '.join(m.get('caught_by', [])) or '—'} | {st.get(label, '')} |")
 table2 = "\n".join(rows2)
 b2, e2 = "<!-- BEGIN SEEDED TABLE -->", "<!-- END SEEDED TABLE -->"
 s2 = open(path).read()
